@@ -74,6 +74,8 @@ class Unit:
         self.struct_names = None    # None = all
         self.drop_traits = set()
         self.free_fns = []          # (module, name)
+        self.scoped_subst = []      # [(pred(im), dict)]: substitutions that apply to particular impls only (rule R4)
+        self.assoc_fix = {}         # textual fixes of associated-type paths after substitution (rule R4)
         self.assume_pred = None     # (im, f) -> True: emit the contract only (external_body); proved in its home unit
         self.trait_extras = {}      # trait -> dict(decl_items, requires{method: [..]}, impl_items(im) -> text)
 
@@ -369,6 +371,19 @@ class Unit:
         return self.fix_assoc('impl%s %s' % (g, st))
 
     def emit_impl(self, im: Impl, ms, used_traits, line0):
+        saved = self.subst
+        extra = {}
+        for pred, d in self.scoped_subst:
+            if pred(im):
+                extra.update(d)
+        if extra:
+            self.subst = dict(saved, **extra)
+        try:
+            return self._emit_impl(im, ms, used_traits, line0)
+        finally:
+            self.subst = saved
+
+    def _emit_impl(self, im: Impl, ms, used_traits, line0):
         src = self.src
         tn = trait_name(im.trait)
         out = []
@@ -391,7 +406,7 @@ class Unit:
         # associated types / consts
         for it in im.items:
             if isinstance(it, Assoc):
-                body_parts.append(('assoc', '    ' + norm(src.render(it.toks[0], it.toks[1], self.subst)) + '\n'))
+                body_parts.append(('assoc', '    ' + self.fix_assoc(norm(src.render(it.toks[0], it.toks[1], self.subst))) + '\n'))
         todo = []
         for f in fns:
             if f.name in want:
@@ -412,7 +427,7 @@ class Unit:
             if c is None:
                 raise ExtractError('un-contracted function in unit %s: %s :: %s' % (self.name, im.header, f.name))
             if tn in OP_TRAITS and c.spec is not None:
-                spec_impl = self.spec_impl(im, f, c)
+                spec_impl = self.fix_assoc(self.spec_impl(im, f, c))
             if tn == 'From' and f.name == 'from':
                 g = subst_text(impl_generics(im, self.subst), self.subst)
                 st = subst_text(im.selfty, self.subst)
@@ -445,7 +460,27 @@ class Unit:
         if ex.get('impl_items'):
             add('    ' + ex['impl_items'](im) + '\n')
         for f, c, is_default in fn_texts:
-            add(self.emit_fn(im, f, nl[0], c=c, is_default=is_default))
+            if is_default and tn in src.traits and trait_args(im.trait):
+                # rule R2: a copied default mentions the trait's generic parameters; bind them to the impl's trait arguments
+                tr = src.traits[tn]
+                t = src.p.toks
+                lo, hi = tr.header_toks
+                names = []
+                if t[lo + 2].text == '<':
+                    j = src.p._skip_angle(lo + 2, hi)
+                    for g in split_top(norm(src.p.text(lo + 3, j - 1))):
+                        names.append(g.split(':')[0].split('=')[0].strip())
+                args = [subst_text(a, self.subst) for a in split_top(trait_args(im.trait))]
+                saved2 = self.subst
+                self.subst = dict(saved2, **dict(zip(names, args)))
+                try:
+                    txt = self.emit_fn(im, f, nl[0], c=c, is_default=is_default)
+                finally:
+                    self.subst = saved2
+                txt = re.sub(r'(?<![A-Za-z_])(Point[123]<Sc>)::(Diff|Scalar)', r'<\1 as EuclideanSpace>::\2', txt)
+                add(txt)
+            else:
+                add(self.emit_fn(im, f, nl[0], c=c, is_default=is_default))
         add('}\n')
         return ''.join(out)
 
@@ -484,6 +519,8 @@ class Unit:
         """`A::Unitless` after the substitution of A (rule R3): the scalar type"""
         if 'A' in self.subst:
             text = text.replace(self.subst['A'] + '::Unitless', 'Sc')
+        for k, v in self.assoc_fix.items():
+            text = text.replace(k, v)
         return text
 
     def obligation_name(self, im, f):
@@ -602,12 +639,12 @@ def insert_before_tail(body, text):
     return body[:last] + '\n' + text + body[last:]
 
 
-CLOSURE_RE = re.compile(r'\|([^|()]*)\|(\s*)\{')
+CLOSURE_RE = re.compile(r'\|([^|()]*)\|(\s*)(\{)?')
 
 
 def annotate_closures(body, closures, f):
     """rule R10: inject parameter types and a requires/ensures into the k-th closure of the body"""
-    ms = list(CLOSURE_RE.finditer(body))
+    ms = [m for m in CLOSURE_RE.finditer(body) if not re.search(r'\|\s*$', body[:m.start()])]
     out = body
     for k in sorted(closures, reverse=True):
         if k >= len(ms):
@@ -621,5 +658,21 @@ def annotate_closures(body, closures, f):
             spec += ' ensures ' + ', '.join(a['ensures'])
         head = '|%s| -> (%s)%s' % (a['params'], a['ret'], spec)
         pre = (' proof { ' + a['pre'] + ' } ') if a.get('pre') else ''
-        out = out[:m.start()] + head + m.group(2) + '{' + pre + out[m.end():]
+        if m.group(3):
+            out = out[:m.start()] + head + m.group(2) + '{' + pre + out[m.end():]
+        else:
+            # expression-bodied closure: runs to the closing parenthesis of the enclosing call
+            depth, j = 0, m.end()
+            while j < len(out):
+                ch = out[j]
+                if ch in '([{':
+                    depth += 1
+                elif ch in ')]}':
+                    if depth == 0:
+                        break
+                    depth -= 1
+                elif ch == ',' and depth == 0:
+                    break
+                j += 1
+            out = out[:m.start()] + head + ' {' + pre + ' ' + out[m.end():j].strip() + ' }' + out[j:]
     return out
